@@ -25,17 +25,46 @@ Section Checkpoint.
   Variable verify : bytes -> bytes -> bytes -> N.
   Variable P : cparams.
 
-  (* the whole function, at or below the horizon, is the table comparison *)
+  (* a declared height must be the parent's plus one whenever the parent is stored *)
+  Definition position_ok (b : block) (s : cstate) : Prop :=
+    forall prev, cs_blocks s !! b_prev b = Some prev -> b_height b = b_height prev + 1.
+
+  (* the whole function, at or below the horizon: the position check, then the table comparison *)
   Lemma v_block_in_state_below (b : block) (s : cstate) :
     (Z.of_N (b_height b) <= p_hz P)%Z ->
     v_block_in_state sha scrypt blake verify P b s =
-      match known_hash (p_known P) (b_height b) with
-      | Some kh => check (bytes_eqb (block_id sha b) kh) EValidation
-      | None => Ok tt
-      end.
+      (do _ <- match cs_blocks s !! b_prev b with
+               | Some prev => check (b_height b =? b_height prev + 1) EValidation
+               | None => Ok tt
+               end;
+       match known_hash (p_known P) (b_height b) with
+       | Some kh => check (bytes_eqb (block_id sha b) kh) EValidation
+       | None => Ok tt
+       end).
   Proof.
     intros Hle. unfold v_block_in_state.
     destruct (Z.of_N (b_height b) <=? p_hz P)%Z eqn:E; [done | lia].
+  Qed.
+
+  Lemma position_check_ok (b : block) (s : cstate) :
+    position_ok b s ->
+    match cs_blocks s !! b_prev b with
+    | Some prev => check (b_height b =? b_height prev + 1) EValidation
+    | None => Ok tt
+    end = Ok tt.
+  Proof.
+    intros Hp. destruct (cs_blocks s !! b_prev b) as [prev|] eqn:E; [|done].
+    apply check_ok. apply N.eqb_eq. by apply Hp.
+  Qed.
+
+  Lemma position_check_inv (b : block) (s : cstate) (r : res unit) :
+    (do _ <- match cs_blocks s !! b_prev b with
+             | Some prev => check (b_height b =? b_height prev + 1) EValidation
+             | None => Ok tt
+             end; r) = Ok tt -> position_ok b s /\ r = Ok tt.
+  Proof.
+    intros H. apply bind_ok in H as [[] [H1 H2]]. split; [|done].
+    intros prev Hprev. rewrite Hprev in H1. apply check_ok in H1. by apply N.eqb_eq in H1.
   Qed.
 
   Theorem checkpoint_enforced (b : block) (s : cstate) (kh : bytes) :
@@ -44,18 +73,19 @@ Section Checkpoint.
     known_hash (p_known P) (b_height b) = Some kh ->
     block_id sha b = kh.
   Proof.
-    intros Hok Hle Hk. rewrite v_block_in_state_below in Hok by exact Hle. rewrite Hk in Hok.
+    intros Hok Hle Hk. rewrite v_block_in_state_below in Hok by exact Hle.
+    apply position_check_inv in Hok as [_ Hok]. rewrite Hk in Hok.
     apply check_ok in Hok. by apply HeaderProofs.bytes_eqb_eq in Hok.
   Qed.
 
-  (* converse direction: a block whose id is the checkpointed one passes, whatever else it contains *)
+  (* converse direction: a block AT that position whose id is the checkpointed one passes, whatever else it contains *)
   Theorem checkpoint_sufficient (b : block) (s : cstate) :
-    (Z.of_N (b_height b) <= p_hz P)%Z ->
+    (Z.of_N (b_height b) <= p_hz P)%Z -> position_ok b s ->
     known_hash (p_known P) (b_height b) = Some (block_id sha b) ->
     v_block_in_state sha scrypt blake verify P b s = Ok tt.
   Proof.
-    intros Hle Hk. rewrite v_block_in_state_below by exact Hle. rewrite Hk.
-    apply check_ok. by apply HeaderProofs.bytes_eqb_eq.
+    intros Hle Hp Hk. rewrite v_block_in_state_below by exact Hle. rewrite (position_check_ok _ _ Hp). cbn.
+    rewrite Hk. apply check_ok. by apply HeaderProofs.bytes_eqb_eq.
   Qed.
 
   (* a wrong id at a checkpointed height is rejected with a ValidationError *)
@@ -66,23 +96,58 @@ Section Checkpoint.
     v_block_in_state sha scrypt blake verify P b s = Err EValidation.
   Proof.
     intros Hle Hk Hne. rewrite v_block_in_state_below by exact Hle. rewrite Hk.
-    destruct (bytes_eqb (block_id sha b) kh) eqn:E; [|done].
-    by apply HeaderProofs.bytes_eqb_eq in E.
+    destruct (cs_blocks s !! b_prev b) as [prev|]; cbn.
+    - destruct (b_height b =? b_height prev + 1); cbn; [|done].
+      destruct (bytes_eqb (block_id sha b) kh) eqn:E; [|done]. by apply HeaderProofs.bytes_eqb_eq in E.
+    - destruct (bytes_eqb (block_id sha b) kh) eqn:E; [|done]. by apply HeaderProofs.bytes_eqb_eq in E.
   Qed.
 
-  (* below the horizon, at a height that is not in the table, NOTHING is validated in-state: no target, no
-     evidence (proof of work), no coinbase amount, no signatures, no double-spend check. *)
+  (* at a position at or below the horizon whose height is not in the table, nothing ELSE is validated in-state: no
+     target, no evidence (proof of work), no coinbase amount, no signatures, no double-spend check -- by design (such a
+     block can never be followed past the next checkpoint) *)
   Theorem below_horizon_only_checkpoint (b : block) (s : cstate) :
-    (Z.of_N (b_height b) <= p_hz P)%Z ->
+    (Z.of_N (b_height b) <= p_hz P)%Z -> position_ok b s ->
     known_hash (p_known P) (b_height b) = None ->
     v_block_in_state sha scrypt blake verify P b s = Ok tt.
-  Proof. intros Hle Hk. rewrite v_block_in_state_below by exact Hle. by rewrite Hk. Qed.
+  Proof.
+    intros Hle Hp Hk. rewrite v_block_in_state_below by exact Hle. rewrite (position_check_ok _ _ Hp). cbn.
+    by rewrite Hk.
+  Qed.
 
-  (* the in-state verdict below the horizon does not depend on the state at all *)
-  Corollary below_horizon_state_irrelevant (b : block) (s s' : cstate) :
+  (* ... but a block that merely DECLARES such a height while attached to a block of another height is rejected,
+     whatever the table says *)
+  Theorem declared_height_off_position_rejected (b : block) (s : cstate) (prev : block) :
+    cs_blocks s !! b_prev b = Some prev -> b_height b <> b_height prev + 1 ->
     (Z.of_N (b_height b) <= p_hz P)%Z ->
-    v_block_in_state sha scrypt blake verify P b s = v_block_in_state sha scrypt blake verify P b s'.
-  Proof. intros Hle. by rewrite !v_block_in_state_below. Qed.
+    v_block_in_state sha scrypt blake verify P b s = Err EValidation.
+  Proof.
+    intros Hprev Hne Hle. rewrite v_block_in_state_below by exact Hle. rewrite Hprev.
+    destruct (N.eqb_spec (b_height b) (b_height prev + 1)) as [E|E]; [done|]. done.
+  Qed.
+
+  (* the in-state verdict, on either side of the horizon: an accepted block's height is its parent's plus one *)
+  Theorem accepted_height_is_position (b : block) (s : cstate) (prev : block) :
+    v_block_in_state sha scrypt blake verify P b s = Ok tt ->
+    cs_blocks s !! b_prev b = Some prev -> b_height b = b_height prev + 1.
+  Proof.
+    intros Hok Hprev. unfold v_block_in_state in Hok.
+    destruct (Z.of_N (b_height b) <=? p_hz P)%Z eqn:E.
+    - apply position_check_inv in Hok as [Hp _]. by apply Hp.
+    - apply bind_ok in Hok as [[] [_ Hok]]. apply bind_ok in Hok as [ev [_ Hok]].
+      apply bind_ok in Hok as [[] [_ Hok]]. destruct (b_txs b) as [|cb rest]; [done|].
+      apply bind_ok in Hok as [[] [Hcb _]]. unfold v_cb_in_state in Hcb.
+      apply bind_ok in Hcb as [prev' [Hp' Hcb]]. apply of_opt_ok in Hp'. rewrite Hprev in Hp'. inversion Hp'; subst prev'.
+      apply bind_ok in Hcb as [[] [Hh _]]. apply check_ok in Hh. by apply N.eqb_eq in Hh.
+  Qed.
+
+  (* the shortcut as shipped before the fix (keyed on the declared height alone) *)
+  Definition v_block_in_state_declared (b : block) (s : cstate) : res unit :=
+    if (Z.of_N (b_height b) <=? p_hz P)%Z then
+      match known_hash (p_known P) (b_height b) with
+      | Some kh => check (bytes_eqb (block_id sha b) kh) EValidation
+      | None => Ok tt
+      end
+    else v_block_in_state sha scrypt blake verify P b s.
 End Checkpoint.
 
 (* ---- 1b. known_hash is a first-match association-list lookup ---- *)
@@ -232,14 +297,29 @@ Theorem real_checkpoint_enforced
     (b : block) (s : cstate) (id : bytes) :
   p_known P = Gen_Checkpoints.KNOWN_HASHES -> p_hz P = Gen_Checkpoints.MAX_KNOWN_HASH_HEIGHT ->
   (b_height b, id) ∈ Gen_Checkpoints.KNOWN_HASHES ->
-  (v_block_in_state sha scrypt blake verify P b s = Ok tt <-> block_id sha b = id).
+  (v_block_in_state sha scrypt blake verify P b s = Ok tt -> block_id sha b = id) /\
+  (position_ok b s -> block_id sha b = id -> v_block_in_state sha scrypt blake verify P b s = Ok tt).
 Proof.
   intros Hk Hz Hin.
   assert (Z.of_N (b_height b) <= p_hz P)%Z as Hle by (rewrite Hz; by eapply table_entries_below_horizon).
   assert (known_hash (p_known P) (b_height b) = Some id) as Hkh by (rewrite Hk; by apply table_lookup_exact).
   split.
   - intros Hok. by eapply checkpoint_enforced.
-  - intros <-. by eapply checkpoint_sufficient.
+  - intros Hp <-. by eapply checkpoint_sufficient.
+Qed.
+
+(* the defect of the shipped shortcut, as a theorem about the pre-fix function: with the real table and horizon, a block
+   declaring height 1 on top of a parent of ANY height passes in-state validation with nothing checked *)
+Theorem declared_height_shortcut_refuted
+    (sha scrypt blake : bytes -> bytes) (verify : bytes -> bytes -> bytes -> N) (P : cparams) (b : block) (s : cstate) :
+  p_known P = Gen_Checkpoints.KNOWN_HASHES -> p_hz P = Gen_Checkpoints.MAX_KNOWN_HASH_HEIGHT ->
+  b_height b = 1 ->
+  v_block_in_state_declared sha scrypt blake verify P b s = Ok tt.
+Proof.
+  intros Hk Hz Hh. unfold v_block_in_state_declared. rewrite Hh, Hz, Hk.
+  assert ((Z.of_N 1 <=? Gen_Checkpoints.MAX_KNOWN_HASH_HEIGHT)%Z = true) as -> by (vm_compute; reflexivity).
+  assert (known_hash Gen_Checkpoints.KNOWN_HASHES 1 = None) as -> by (vm_compute; reflexivity).
+  reflexivity.
 Qed.
 
 (* ---- 1e. the regenerated genesis block ---- *)
